@@ -1,5 +1,5 @@
 CONSTANTS MaxEdits = 3
- Shapes = {"one", "two", "dir", "fg", "txt"}
+ Shapes = {"one", "two", "dir", "od", "fg", "txt"}
  CfgIds = {"default", "sha256only", "crc"}
  UseCache = TRUE
  Flaw_Concat = TRUE
